@@ -38,6 +38,28 @@ func initStrIntr() {
 		}
 		return concreteStr(strconv.FormatFloat(f.F, byte(concInt(a[1])), int(concInt(a[2])), int(concInt(a[3]))))
 	}
+	intrinsics["strings.Contains"] = func(in *Interp, fn *ssa.Function, a []Value) Value {
+		s1, ok1 := a[0].(Str).Concrete()
+		s2, ok2 := a[1].(Str).Concrete()
+		if !ok1 || !ok2 {
+			in.fail("strings.Contains of a symbolic string")
+		}
+		return BoolConst(strings.Contains(s1, s2))
+	}
+	intrinsics["strings.HasPrefix"] = func(in *Interp, fn *ssa.Function, a []Value) Value {
+		s, p := a[0].(Str), a[1].(Str)
+		if len(p.B) > len(s.B) {
+			return tFalse
+		}
+		return strEq(Str{s.B[:len(p.B)]}, p)
+	}
+	intrinsics["strings.HasSuffix"] = func(in *Interp, fn *ssa.Function, a []Value) Value {
+		s, p := a[0].(Str), a[1].(Str)
+		if len(p.B) > len(s.B) {
+			return tFalse
+		}
+		return strEq(Str{s.B[len(s.B)-len(p.B):]}, p)
+	}
 	intrinsics["strings.Split"] = func(in *Interp, fn *ssa.Function, a []Value) Value {
 		s1, ok1 := a[0].(Str).Concrete()
 		s2, ok2 := a[1].(Str).Concrete()
